@@ -78,6 +78,15 @@ def run (j : Json) : R Json := do
       let sorted := (all.toArray.qsort (· < ·)).toList
       outs := outs.push (Json.mkObj [("tasks", jnats sorted), ("nodup", jbool (decide all.Nodup)),
         ("unique", jbool (uniqueNames (all.map st.nameOf)))])
+    | "closegraph" =>
+      -- close_dependency_graph on an explicit graph of `n` fresh tasks (cycles allowed): [n, [[t, d], ...], roots]
+      let n ← nat (← nth l 1)
+      let edges ← listOf (fun e => do let p ← arr e; pure ((← nat (← nth p 0)), (← nat (← nth p 1)))) (← nth l 2)
+      let roots ← listOf nat (← nth l 3)
+      let deps : Nat → List Nat := fun t => (edges.filter (·.1 == t)).map (·.2)
+      let all := closeDeps deps (n + 1) roots
+      let sorted := (all.toArray.qsort (· < ·)).toList
+      outs := outs.push (Json.mkObj [("tasks", jnats sorted), ("nodup", jbool (decide all.Nodup))])
     | s => throw s!"bad-op {s}"
   let beh := st.behaviour.map fun (t, b) => jl [jnat t, jbeh st b]
   pure (Json.mkObj [("outs", Json.arr outs), ("tasks", jl beh), ("names", jstrs (st.names.map (·.2)))])
